@@ -104,15 +104,15 @@ type DrvRun struct {
 	Err      error
 	Returned bool
 	// CancelSeen: the context was cancelled (by the harness) strictly before the call returned
-	CancelSeen bool
-	Rows       []cbRow
-	W          *mcWriter
-	jail       *fsx.Jail
-	before     fsx.Snap
-	After      fsx.Snap
+	CancelSeen     bool
+	Rows           []cbRow
+	W              *mcWriter
+	jail           *fsx.Jail
+	before         fsx.Snap
+	After          fsx.Snap
 	OutsideChanged string
-	cancelDone bool
-	FSCalls    int
+	cancelDone     bool
+	FSCalls        int
 }
 
 func (d *Drv) New() *DrvRun {
